@@ -9,7 +9,9 @@ tas-like settings and their lifts to every window mode).  The model is tied to /
 and the property itself is tested on the real code (the failing-input search): apply_location on (obs, H, F) and on
 (a*obs+b, a*H+b, a*F+b) for K / degC / degF style maps, every debiaser, window modes on and off; part of the cases go
 through the real `apply` on small grids with integer / float32 / float64 (and mixed) inputs — the result must be
-floating point and equivariant ("for all series" includes whole-Kelvin integer model output).
+floating point and equivariant ("for all series" includes whole-Kelvin integer model output); a second batch drives `apply` in
+every other call form a user legitimately can (failsafe on / off, serial / parallel with 1..4 processes, progress bar, every accepted
+time encoding or none, every memory layout, data originally in K or degC, other debiasers constructed before) — see CALL FORMS.
 """
 import datetime
 from fractions import Fraction
@@ -343,15 +345,40 @@ def grid_case(name, factory, case):
     def series(dates, mean, sd):
         return np.stack([np.stack([probes.tas_like(nprs, dates, mean + 0.7 * i - 0.4 * j, sd) for j in range(gy)], axis=1) for i in range(gx)], axis=1)
 
-    o, h, f = series(dO, 272.0, 4.0), series(dH, 274.5, 5.0), series(dF, 276.0, 5.0)
+    # `call` (absent in the cases of the first batch = the default call form): HOW the public `apply` is driven — see CALL FORMS below
+    call = case.get("call") or {}
+    shift = float(call.get("base_shift", 0.0))  # 0 = the data are in K, -273.15 = the original data are in degC
+    o, h, f = series(dO, 272.0 + shift, 4.0), series(dH, 274.5 + shift, 5.0), series(dF, 276.0 + shift, 5.0)
     arrs = [np.rint(x).astype(dt) if dt[0] == "i" else x.astype(dt) for x, dt in zip((o, h, f), case["dtypes"])]
     a, b = case["a"], case["b"]
     kw = dict(running_window_mode=False) if case["mode"] == "nowindow" else dict(running_window_mode=True, running_window_length=61, running_window_step_length=31)
     tkw = dict(time_obs=dO, time_cm_hist=dH, time_cm_future=dF, progressbar=False)
-    with warnings.catch_warnings(), np.errstate(all="ignore"):
+    layouts = call.get("layouts") or ["C", "C", "C"]
+    if call:
+        from harness import gridprobes as GP
+
+        tk = call.get("time_kinds")
+        if tk == "none":  # no time arrays given: the library infers a daily axis itself (and says so in a warning)
+            tkw = {}
+        elif tk:
+            tkw = {key: probes.present(d, kind) for key, d, kind in zip(("time_obs", "time_cm_hist", "time_cm_future"), (dO, dH, dF), tk)}
+        tkw.update(progressbar=bool(call.get("progressbar", False)), parallel=bool(call.get("parallel", False)), failsafe=bool(call.get("failsafe", False)))
+        if call.get("nr_processes") is not None:
+            tkw["nr_processes"] = int(call["nr_processes"])
+        run_prelude(call.get("constructed_before"))
+
+        def lay(xs):
+            return [GP.relayout(x, kind) for x, kind in zip(xs, layouts)]
+    else:
+        def lay(xs):
+            return [x.copy() for x in xs]
+    import contextlib
+    import os
+
+    with warnings.catch_warnings(), np.errstate(all="ignore"), open(os.devnull, "w") as devnull, contextlib.redirect_stderr(devnull):  # tqdm -> stderr
         warnings.simplefilter("ignore")
-        base = factory(**kw).apply(*[x.copy() for x in arrs], **tkw)
-        moved = factory(**kw).apply(*[_unit(x, a, b) for x in arrs], **tkw)
+        base = factory(**kw).apply(*lay(arrs), **tkw)
+        moved = factory(**kw).apply(*lay([_unit(x, a, b) for x in arrs]), **tkw)
     base, moved = np.asarray(base), np.asarray(moved)
     dtype_problem = ""
     for nm, out in (("apply(obs, H, F)", base), ("apply(g obs, g H, g F)", moved)):
@@ -400,6 +427,80 @@ def grid_oracle(rng, n_cases, res, hits, worst):
         if problem:
             hits.append((f"{name} via apply [{case['mode']}, grid {case['grid']}, dtypes obs/cm_hist/cm_future = {'/'.join(dts)}] a={a} b={b}: {problem}",
                          case, detail))
+
+
+# ------------------------------------------------------------------ CALL FORMS of the public `apply`
+# Quantifier covered: "for all series ... all debiasers with their tas settings, running windows on or off" is a statement about what
+# the PUBLIC entry point returns.  None of the ways a user may legitimately drive `apply` is a guard of the property, so it has to hold
+# for each of them: failsafe on / off (documented to matter only at a location that raises — none does here), serial / parallel (any
+# number of processes), progress bar on / off, every accepted encoding of the time axes (or none: the library infers one), every
+# memory layout numpy hands out for the three arrays, data originally in K or in degC, and whatever was constructed before.  The first
+# batch (grid_oracle) only ever used the default call form; these cases rotate the others (a few of each per run).
+CALL_TIME_KINDS = ["date", "M8D", "datetime", "none", "M8ns", "plain", "datetime_tz", "M8h", "M8s"]
+CALL_MAPS = {  # base_shift -> unit maps (zero / the "reasonable" Kelvin range on one side of the map only, and on both)
+    0.0: [(1.0, -273.15), (9 / 5, -459.67), (2.5, 0.0), (5 / 9, 1e3), (1.0, 32.0), (9 / 5, 1e3)],
+    -273.15: [(1.0, 273.15), (9 / 5, 32.0), (5 / 9, 255.3722222222222), (2.5, 0.0)],
+}
+
+
+def call_plan(k, name):
+    from harness import gridprobes as GP
+
+    parallel = k % 3 == 2
+    tk0, tk1 = CALL_TIME_KINDS[k % 9], CALL_TIME_KINDS[(k // 2) % 9]
+    return {
+        "failsafe": (k + k // 9) % 2 == 0,  # decorrelated from the grid / configuration rotation
+        "parallel": parallel,
+        "nr_processes": [2, None, 3, 1][(k // 3) % 4] if parallel else None,  # None = the library default (4)
+        "progressbar": k % 4 == 1,
+        "layouts": [GP.LAYOUTS[(k + 1) % 5], GP.LAYOUTS[(k // 2 + 2) % 5], GP.LAYOUTS[(k // 3 + 3) % 5]],
+        # obs / cm_future in one encoding, cm_hist possibly in another (the three axes are independent arguments)
+        "time_kinds": "none" if tk0 == "none" else [tk0, "date" if tk1 == "none" else tk1, tk0],
+        "base_shift": -273.15 if k % 5 == 3 else 0.0,
+        "constructed_before": make_prelude(name, k),
+    }
+
+
+def call_form_oracle(rng, n_cases, res, hits, worst):
+    cfgs = _configs()
+    for k in range(n_cases):
+        # mostly double precision (all configurations); every fourth case an integer / single-precision combination (continuous ones)
+        dts = DTYPE_COMBOS[5] if k % 4 else DTYPE_COMBOS[(k // 4) % len(DTYPE_COMBOS)]
+        integer = any(dt[0] == "i" for dt in dts)
+        restricted = integer or any(dt == "f4" for dt in dts)
+        pool = CONTINUOUS if restricted else GRID_ALL
+        name = pool[(k * 2 + k // len(pool)) % len(pool)]
+        call = call_plan(k, name)
+        if restricted:
+            call["base_shift"] = 0.0
+        maps = INT_MAPS if integer else CALL_MAPS[call["base_shift"]]
+        a, b = maps[(k // 2) % len(maps)]
+        case = {"config": name, "mode": ["window", "nowindow"][(k // 2) % 2], "a": a, "b": b, "dtypes": list(dts), "grid": list([(2, 1), (1, 2), (2, 2), (1, 1)][k % 4]),
+                "n": 400 + 40 * (k % 7), "np_seed": rng.randint(0, 2**31 - 2), "via": "apply", "call": call}
+        factory, _kind = cfgs[name]
+        try:
+            problem, mx, detail = grid_case(name, factory, case)
+        except Exception as ex:  # noqa: BLE001  (an exception of the code under test is a failing input, not a crash of the check)
+            problem, mx, detail = f"the run raised {type(ex).__name__}: {str(ex)[:200]}", float("inf"), None
+        key = "apply-call:" + name
+        worst[key] = max(worst.get(key, 0.0), mx if np.isfinite(mx) else 1e300)
+        form = call_text(call)
+        res.count(("apply-call", name, case["mode"], a, b, call["failsafe"], call["parallel"], call["nr_processes"], call["progressbar"],
+                   tuple(call["layouts"]), str(call["time_kinds"]), call["base_shift"]), True, sample={**case, "max_abs_dev": mx})
+        for feat in (f"failsafe={call['failsafe']}", f"parallel={call['parallel']}", "time=" + (call["time_kinds"] if call["time_kinds"] == "none" else call["time_kinds"][0]),
+                     "layout=" + call["layouts"][2], f"base_shift={call['base_shift']}"):
+            CALL_COVERAGE[feat] = CALL_COVERAGE.get(feat, 0) + 1
+        if problem:
+            hits.append((f"{name} via apply({form}) [{case['mode']}, grid {case['grid']}, dtypes obs/cm_hist/cm_future = {'/'.join(dts)}, data in "
+                         f"{'K' if call['base_shift'] == 0 else 'degC'}] a={a:g} b={b:g}: {problem}", case, detail))
+
+
+CALL_COVERAGE = {}
+
+
+def call_text(call):
+    return (f"failsafe={call.get('failsafe', False)}, parallel={call.get('parallel', False)}, nr_processes={call.get('nr_processes')}, "
+            f"progressbar={call.get('progressbar', False)}, time axes {call.get('time_kinds')}, layouts {call.get('layouts')}")
 
 
 # ------------------------------------------------------------------ tier B for the round-4 theorems
@@ -573,7 +674,9 @@ def linregress_assumption(rng, n):
 def run(tier, res, force_search=False):
     rng = random.Random(C.seed() * 15485863 + 4)
     res.rule = ("oracle cases = (debiaser configuration, window mode, unit map (a, b), base unit, numpy seed of the three dated series); "
-                "distinct = distinct (configuration, window mode, a, b, base unit); correspondence cases counted by their own rule "
+                "distinct = distinct (configuration, window mode, a, b, base unit); apply cases = (configuration, window mode, a, b, dtypes, grid) and, "
+                "for the call-form batch, (failsafe, parallel, nr_processes, progressbar, layouts, time encodings, base unit) in addition; "
+                "correspondence cases counted by their own rule "
                 "(configuration, stream, length classes) / (ISIMIP configuration, sizes, step-6 branch)")
     res.trusted = C.BASE_TRUSTED + [
         "distribution family: LocScaleLaws proved for the rational test double (Lemmas.Family.ratSigmoid_laws), ASSUMED for scipy.stats.norm "
@@ -719,6 +822,12 @@ def run(tier, res, force_search=False):
     n_grid = (27 if quick else 270) * (3 if (force_search or not lean_ok or mismatches) else 1)
     grid_oracle(rng, n_grid, res, hits, worst)
     res.extra["oracle_apply_grid_runs"] = n_grid
+    # ... and through every other call form of `apply` (failsafe, parallel, time encodings, memory layouts, base unit, construction order)
+    n_call = (36 if quick else 360) * (3 if (force_search or not lean_ok or mismatches) else 1)
+    CALL_COVERAGE.clear()
+    call_form_oracle(rng, n_call, res, hits, worst)
+    res.extra["oracle_apply_call_form_runs"] = n_call
+    res.extra["oracle_apply_call_form_coverage"] = dict(sorted(CALL_COVERAGE.items()))
     res.extra["oracle_runs"] = k
     res.extra["ties_accepted"] = res.extra.get("ties_accepted", 0) + TIES["auto_bins"]
     res.extra["oracle_auto_bin_ties_accepted"] = TIES["auto_bins"]
@@ -729,7 +838,8 @@ def run(tier, res, force_search=False):
     # ---- verdict
     seen = set()
     for desc, case, detail in hits:
-        key = (case["config"], case["mode"], case.get("via", "apply_location"), tuple(case.get("dtypes", ())))
+        call = case.get("call") or {}
+        key = (case["config"], case["mode"], case.get("via", "apply_location"), tuple(case.get("dtypes", ())), call.get("failsafe"), call.get("parallel"))
         if key in seen:
             continue
         seen.add(key)
@@ -751,8 +861,12 @@ def replay(data):
     cfgs = {**_configs(), **_mult_configs()}
     factory, kind = cfgs[case["config"]]
     if case.get("via") == "apply":
-        problem, mx, _ = grid_case(case["config"], factory, case)
-        print(f"replay {case['config']} via apply [{case['mode']}, grid {case['grid']}, dtypes {case['dtypes']}] a={case['a']} b={case['b']}: max deviation {mx:.3g}")
+        try:
+            problem, mx, _ = grid_case(case["config"], factory, case)
+        except Exception as ex:  # noqa: BLE001
+            problem, mx = f"the run raised {type(ex).__name__}: {str(ex)[:200]}", float("inf")
+        form = f"({call_text(case['call'])})" if case.get("call") else ""
+        print(f"replay {case['config']} via apply{form} [{case['mode']}, grid {case['grid']}, dtypes {case['dtypes']}] a={case['a']} b={case['b']}: max deviation {mx:.3g}")
         if problem:
             print("  " + problem)
             print(f"VIOLATION property={PROP} (reproduced)")
